@@ -26,7 +26,7 @@ from harness import common
 from harness.common import Check, coq_Q, coq_Z, coq_bool, coq_list
 
 REGISTRY = dict(
-    text=("Proof (over the reals, Coquelicot): for a batch objective k*sum_i f_i(output_i) the partial derivative in one sample's output is k*f_i'; closed-form derivatives away from the kinks of "
+    text=("No known finding. Proof (over the reals, Coquelicot): for a batch objective k*sum_i f_i(output_i) the partial derivative in one sample's output is k*f_i'; closed-form derivatives away from the kinks of "
           "min/clamp/Huber: PPO clipped surrogate (-A where the unclipped branch is the minimum, 0 otherwise, times the ratio through exp; pessimistic bound), optional value clipping, entropy term "
           "(analytic or -log_prob), A2C policy-gradient/value/entropy, DQN Huber loss (clamp(x,-1,1)) against r + gamma(1-done) max Q_target (bootstrap cut when done), SAC critic (min over target critics "
           "minus alpha*log pi), actor (alpha through log pi, -1 through the smaller critic only), temperature (-(log pi + H_target)), TD3 critic/actor, target-policy smoothing bounds, DDPG as the "
